@@ -1264,6 +1264,12 @@ impl<'a> Walk<'a> {
                     return;
                 }
                 let a = want!(asg::Stmt::Assignment(a) => a);
+                if matches!(strip_paren(value), Expr::IndexedId(..)) {
+                    // indexed values have no settled type in this front end: whether the
+                    // assignment is then reported as ill-typed is not a usage rule (not judged)
+                    let ord = *self.cur.last().unwrap_or(&0);
+                    self.has_unresolved.push(ord);
+                }
                 match target {
                     LValue::Id(n) => {
                         self.expr(value, a.map(|a| a.rvalue()), "assign-value");
